@@ -255,6 +255,28 @@ theorem service_safepoints_hold (hnow : now ≤ maxI64)
       obtain ⟨x, hx, rfl⟩ := (hmem _ _).1 hr
       exact h2 h0 x hx
 
+/-- **gc_worker's registration is never removed** – neither by the storage-level removal that the HTTP API
+    `DELETE /gc/safepoint/{service_id}` performs, nor by an answered registration request. -/
+theorem del_keeps_gc_worker (gc : String) (t : Table) (svc : String) :
+    C15.GcWorkerKept gc (t.map toRec) ((del gc t svc).1.map toRec) := by
+  rintro ⟨r, hr, hid⟩
+  obtain ⟨x, hx, rfl⟩ := List.mem_map.1 hr
+  refine ⟨toRec x, List.mem_map.2 ⟨x, ?_, rfl⟩, hid⟩
+  unfold del
+  split
+  · exact hx
+  · split
+    · exact hx
+    · rename_i hne _
+      exact (mem_tremove _ _ _).2 ⟨hx, fun e => hne (by rw [← e]; exact hid.symm ▸ rfl)⟩
+
+theorem usp_keeps_gc_worker (hnow : now ≤ maxI64)
+    (h : usp gc t svc ttl sp now failAt = (t', .ok mid mttl msp)) :
+    C15.GcWorkerKept gc (t.map toRec) (t'.map toRec) := by
+  intro _
+  obtain ⟨x, hx, h1, _⟩ := gc_worker_always_present_infinite gc t svc ttl sp now failAt t' mid mttl msp hnow h
+  exact ⟨toRec x, List.mem_map.2 ⟨x, hx, rfl⟩, h1⟩
+
 /-- the cut of the handler at its own write (used to replay requests of different services that are in flight
     together) is the handler: with nothing in between, pre and post compose to `usp`.  Under
     `serviceSafePointLock` nothing can come in between. -/
